@@ -57,6 +57,23 @@ CHECKS.append({
     "design_ref": "DESIGN.md section 7, C04",
 })
 
+CHECKS.append({
+    "property_id": "C17",
+    "text": ("coq/Props/C17.v over the counter TRANSLATED from pycomm3.util.cycle on every run (harness/gen_seq.py -> coq/Gen/SeqGen.v, with "
+             "the arguments CIPDriver.__init__ passes): C17_iff / C17_iff_by_index: for EVERY history of count allocations of any length (any number "
+             "of wrap-arounds), with messages sent in any order relative to the order their counts were drawn, a connected message repeats the count "
+             "of the message sent immediately before it IF AND ONLY IF the two counts were drawn a multiple of 65535 draws apart; hence "
+             "C17_guarded / C17_small_gaps: freshness holds for every history in which fewer than 65534 counts are drawn between consecutive "
+             "sends; C17_range: every count on the wire is in 1..65535. The full statement is refuted by a vm_compute witness (C17_full_refuted: "
+             "one message, 65534 wasted draws, next message) which is replayed on the real LogixDriver (read of 65534 tags) and listed as a known "
+             "finding. Induction over histories + modular arithmetic (lia). Tie: regenerated translation + cross-check against the real generator "
+             "over two periods, and draw-index traces of real CIP/Logix/Micro800/SLC driver histories around the wrap-around."),
+    "note": COMMON_NOTE + " C17: closed under the global context. Additional trusted translator: harness/gen_seq.py (fail-closed AST "
+            "translation of the generator body, cross-checked against the running generator).",
+    "technique": "Coq proof over a model regenerated from source by an AST translator (induction, modular arithmetic) + allocation-trace correspondence on real drivers",
+    "design_ref": "DESIGN.md section 7, C17",
+})
+
 _PENDING = "vertical not yet built in this session (see DESIGN.md section 9 staging); decided by Coq proof + correspondence when it lands"
 _CLAIMED = {c["property_id"] for c in CHECKS}
 NOT_APPLICABLE = [{"property_id": f"C{i:02d}", "reason": _PENDING} for i in range(1, 20) if f"C{i:02d}" not in _CLAIMED]
